@@ -440,6 +440,21 @@ def rule_weight_notation(ctx, TM):
     ctx.floor("token shapes with a weight tail (C05)", len(seen), 7)
 
 
+def _is_token_parse(fn_, call_term):
+    """call_term is HandRangeToken::from_str(x) or x.parse::<HandRangeToken>() (which forwards to it)"""
+    if call_term[0] != "call":
+        return False
+    if call_term[1] == f"<{TOKEN} as std::str::FromStr>::from_str":
+        return True
+    if call_term[1] == "core::str::<impl str>::parse" and len(call_term) > 3:
+        try:
+            ga = fn_.blocks[call_term[3]]["term"]["callee"].get("generic_args") or []
+        except (IndexError, KeyError, TypeError):
+            ga = []
+        return TOKEN in ga
+    return False
+
+
 def rule_range_parser(ctx, F):
     rule = "C05.range-parser"
     ctx.rule(rule, "HandRange::from_str removes spaces, splits on ',', and inserts every expansion into one map in token order (later wins); empty text = empty range")
@@ -455,9 +470,12 @@ def rule_range_parser(ctx, F):
     problems = []
     names = [c.rsplit("::", 1)[-1] for c in chain]
     pipeline = "filter_map" in names and "flatten" in names
+    lazy_tokens = "filter_map" in names and "flatten" not in names      # for token in pieces.filter_map(parse ok) { for .. in token {..} }
     if any(n in ("rev", "skip", "take", "filter", "step_by", "rsplit", "splitn", "rsplitn", "take_while", "skip_while", "map_while") for n in names):
         problems.append(f"token iteration goes through {names}")
     elif pipeline and [n for n in names if n not in ("deref", "into_iter", "as_str")] != ["split", "filter_map", "flatten"]:
+        problems.append(f"token iteration goes through {names}")
+    elif lazy_tokens and [n for n in names if n not in ("deref", "into_iter", "as_str")] != ["split", "filter_map"]:
         problems.append(f"token iteration goes through {names}")
     # split(",") of replace(" ", "") of the parameter
     split_call = None
@@ -473,7 +491,7 @@ def rule_range_parser(ctx, F):
                 and P.strip(base[2][1]) in (("str", " "), ("char", 32)) and P.strip(base[2][2]) == ("str", "")):
             problems.append(f"the split text is not `s.replace(\" \", \"\")`: {P.show(base)[:80]}")
     parse_calls = [bi for bi, t_ in fn.calls() if I.callee_path(t_) == f"<{TOKEN} as std::str::FromStr>::from_str" and bi in outer.body]
-    if pipeline:
+    if pipeline or lazy_tokens:
         # split(',').filter_map(|piece| Token::from_str(piece).ok()).flatten(): every piece is parsed, the failing ones
         # are dropped, each token is expanded in place (flatten = its IntoIterator), in order
         fm = [s_ for s_ in P.walk(outer.iter_term) if s_[0] == "call" and s_[1].rsplit("::", 1)[-1] == "filter_map" and len(s_[2]) == 2]
@@ -486,7 +504,7 @@ def rule_range_parser(ctx, F):
                     subj = I.result_ok_subject(P.Prov(cf).local(0))
                     if subj is not None:
                         pc = P.strip(subj, calls=False)
-                        okc = pc[0] == "call" and pc[1] == f"<{TOKEN} as std::str::FromStr>::from_str" and P.strip(pc[2][0]) == ("param", 2)
+                        okc = _is_token_parse(cf, pc) and P.strip(pc[2][0]) == ("param", 2)
         if not okc:
             problems.append("the filter_map closure is not |piece| HandRangeToken::from_str(piece).ok()")
     elif len(parse_calls) != 1 or not L.in_every_iteration(fn, outer, parse_calls[0]):
@@ -513,9 +531,10 @@ def rule_range_parser(ctx, F):
         else:
             isrc, ich = inner[0].chain()
             s_ = P.strip(isrc)
-            okp = s_[0] == "field" and s_[1][0] == "variant" and s_[1][2] == "Ok" and P.strip(s_[1][1])[0] == "call" and \
-                P.strip(s_[1][1])[1] == f"<{TOKEN} as std::str::FromStr>::from_str" and \
+            okp = s_[0] == "field" and s_[1][0] == "variant" and s_[1][2] == "Ok" and _is_token_parse(fn, P.strip(s_[1][1])) and \
                 P.strip(P.strip(s_[1][1])[2][0]) == P.strip(outer.item_term)
+            if lazy_tokens:
+                okp = s_ == P.strip(outer.item_term)      # the tokens were parsed by the filter_map stage
             if not okp:
                 problems.append(f"the expansion loop does not iterate the token parsed from the current piece: {P.show(s_)[:80]}")
             if any(c.rsplit("::", 1)[-1] in ("rev", "skip", "take", "filter") for c in ich):
@@ -531,6 +550,15 @@ def rule_range_parser(ctx, F):
                 if s["k"] == "assign" and s["place"]["l"] == 0 and not s["place"]["proj"]]
         oks = [r for r in rets if r[0] == "agg" and r[1].endswith("Result::Ok")]
         wraps = [r for r in oks if P.strip(r[2][0])[0] == "agg" and P.strip(P.strip(r[2][0])[2][0]) == m]
+        # .. or the inserts go into the map of a range that starts as HandRange::empty() and is returned
+        for r in oks:
+            rv_ = P.strip(r[2][0], calls=False)
+            if rv_[0] == "call" and rv_[1] in F.fns and not rv_[2] and m == ("field", rv_, 0):
+                e_ = P.strip(P.Prov(F.fns[rv_[1]]).local(0))
+                if e_[0] == "agg" and e_[1].startswith("adt:" + HR) and len(e_[2]) == 1:
+                    mk = P.strip(e_[2][0], calls=False)
+                    if mk[0] == "call" and mk[1].startswith("std::collections::HashMap") and mk[1].rsplit("::", 1)[-1] in ("with_hasher", "new", "default", "with_capacity_and_hasher"):
+                        wraps.append(r)
         if not wraps:
             problems.append("the returned range does not wrap the map that receives the inserts")
         errs = [r for r in rets if r[0] == "agg" and r[1].endswith("Result::Err")]
